@@ -1,7 +1,7 @@
 (* C14 - Records, varints and spilled payloads decode exactly per the file
    format.  Property theorems only; proofs are in Proofs/. *)
 From SQ Require Import Model.Base Model.Varint Model.Record Model.Payload Model.Btree Model.Page Spec.Encode
-     Proofs.BaseP Proofs.VarintP Proofs.RecordP Proofs.PayloadP Proofs.PageP.
+     Proofs.BaseP Proofs.VarintP Proofs.RecordP Proofs.PayloadP Proofs.PageP Gen.Arith Proofs.ArithP.
 
 (* every unsigned 64-bit value, hence all nine varint lengths *)
 Theorem C14_varint : forall v rest, 0 <= v < 2 ^ 64 ->
@@ -106,6 +106,19 @@ Theorem C14_table_leaf_page : forall hdr starts rest cells u,
   parse_page b false u = Ok (TLeaf cells).
 Proof. exact table_leaf_page. Qed.
 Print Assumptions C14_table_leaf_page.
+
+(* the model's local-payload arithmetic IS the source's: Gen/Arith.v is translated from
+   db/btree.go on every build (calculateCellInPageBytes and the threshold arguments of the three
+   payload-carrying cell parsers, with Go's truncated / and %); for every page size from 12 up,
+   every payload length and every threshold it computes what Model/Payload.v computes *)
+Theorem C14_source_arithmetic : forall l u x, 12 <= u ->
+  go_calculateCellInPageBytes l u x = cell_in_page_bytes l u x /\
+  go_max_local_parseTableLeaf u = table_max_local u /\
+  go_max_local_parseIndexLeaf u = index_max_local u /\ go_max_local_parseIndexInterior u = index_max_local u.
+Proof.
+  intros l u x Hu. split; [exact (go_cell_in_page_bytes l u x Hu)|]. split; [exact (go_table_max_local u)|]. exact (go_index_max_local u Hu).
+Qed.
+Print Assumptions C14_source_arithmetic.
 
 (* non-vacuity: concrete objects meeting the hypotheses *)
 Example C14_record_example :
